@@ -206,6 +206,10 @@ class InjectedFault(Exception):
         self.tag = tag
 
 
+class SourceReadError(Exception):
+    """What a translating generator source raises for anything thrown in at its yield"""
+
+
 class InjectedBase(BaseException):
     def __init__(self, tag):
         BaseException.__init__(self, tag)
@@ -283,10 +287,13 @@ LOGGING_FLAVOURS = ("getitem", "sync_iter", "seq_abc", "set_abc") + ASYNC_FLAVOU
 
 class SrcPlan:
     __slots__ = ("name", "items", "flavour", "suspend", "aclose_suspends", "fresh", "aclose_mode", "falsy", "resilient",
-                 "iter_fault", "equal", "slow", "dual")
+                 "iter_fault", "equal", "slow", "dual", "lazy_open", "hand_next")
 
     def __init__(self, name, items, flavour="list", suspend=(), aclose_suspends=0, fresh=False, aclose_mode=0,
-                 falsy=False, resilient=False, iter_fault=None, equal=False, slow=None, dual=False):
+                 falsy=False, resilient=False, iter_fault=None, equal=False, slow=None, dual=False, lazy_open=False,
+                 hand_next=False):
+        self.lazy_open = lazy_open  # (class-based) __anext__ only works after __aiter__ has been called
+        self.hand_next = hand_next  # (class-based) plain def __anext__ returning a hand-written awaitable object
         self.dual = dual  # (class-based) also offers the synchronous protocol, with another meaning: the async side counts
         self.slow = slow  # virtual seconds that pass inside the k-th pull (clock seam), or None
         self.resilient = resilient  # (async generator) handles exceptions thrown in at its yield and continues
@@ -317,6 +324,8 @@ class SrcPlan:
             "equal": self.equal,
             "slow": list(self.slow) if self.slow else None,
             "dual": self.dual,
+            "lazy_open": self.lazy_open,
+            "hand_next": self.hand_next,
         }
 
 
@@ -326,7 +335,7 @@ class Source:
     __slots__ = (
         "world", "plan", "name", "items", "cursor", "n_pulls", "exhausted", "closed",
         "n_aclose", "finalised", "in_flight", "overlaps", "pulls_after_close", "failed",
-        "obj", "agen", "started", "delivered", "n_iters", "refs", "killed", "iters",
+        "obj", "agen", "started", "delivered", "n_iters", "refs", "killed", "iters", "opened",
     )
 
     def __init__(self, world, plan):
@@ -355,6 +364,7 @@ class Source:
         self.delivered = 0
         self.n_iters = 0
         self.iters = []  # (async iterable) every iterator handed out by __aiter__
+        self.opened = False
         self.killed = False  # an exception thrown in (cancellation) ended the async generator
         world.sources[plan.name] = self
 
@@ -579,6 +589,9 @@ async def _agen_stream(src):
                     yield hold.pop()
                 except Exception as err:
                     world.log.append(("thrown_into", src.name, type(err).__name__))
+                    if src.plan.resilient == 2:
+                        # ... or reports whatever reaches it at its yield as a failure of its own
+                        raise SourceReadError("while delivering an item of %s" % src.name) from err
             else:
                 yield hold.pop()
     except GeneratorExit:
@@ -614,10 +627,14 @@ class AIterCls:
 
     def __aiter__(self):
         _iter_fault(self.src)
+        self.src.opened = True
         return self
 
     async def __anext__(self):
         src = self.src
+        if src.plan.lazy_open and not src.opened:
+            # a cursor that is opened by __aiter__ (idempotently): whoever iterates it goes through __aiter__ first
+            raise TypeError("%s: __anext__ before __aiter__" % src.name)
         k = src._begin()
         if src.in_flight:
             src.overlaps += 1
@@ -645,6 +662,27 @@ class AIterCls:
         if self.src.plan.aclose_mode == 2:
             return _AwaitableClose(self._do_aclose())
         return self._do_aclose()
+
+
+class _NextAwaitable:
+    """What a plain ``def __anext__`` may return: an awaitable object whose ``__await__`` is a generator function"""
+
+    __slots__ = ("it",)
+
+    def __init__(self, it):
+        self.it = it
+
+    def __await__(self):
+        return AIterCls.__anext__(self.it).__await__()
+
+
+class AIterHandNext(AIterCls):
+    """Class-based async iterator whose ``__anext__`` is a plain method returning an awaitable object"""
+
+    __slots__ = ()
+
+    def __anext__(self):
+        return _NextAwaitable(self)
 
 
 class AIterDual(AIterCls):
@@ -805,7 +843,7 @@ def make_async_source(world, plan):
         obj = _agen_stream(src)
         src.agen = obj
     elif fl == "aiter_cls":
-        obj = AIterDual(src) if plan.dual else AIterCls(src)
+        obj = AIterDual(src) if plan.dual else (AIterHandNext(src) if plan.hand_next else AIterCls(src))
     elif fl == "aiter_noclose":
         obj = AIterNoClose(src)
     elif fl == "aiter_full":
